@@ -30,6 +30,26 @@ def run_sessions(args, fd):
     matplotlib.use("Agg")
     seed = args["seed"]
     entries = S.catalogue()
+    # every kernel returns an error code: record the codes seen during a call
+    # of the public API (a wrapper that ignores one answers unusable input
+    # with neither an exception nor a sentinel)
+    kcodes = []
+    import c_hydrodiy_data, c_hydrodiy_stat, c_hydrodiy_gis
+
+    def _wrap(fname, f):
+        def w(*a, **k):
+            r = f(*a, **k)
+            if isinstance(r, (int, np.integer)) and not isinstance(r, bool):
+                kcodes.append((fname, int(r)))
+            return r
+        return w
+    for mod in (c_hydrodiy_data, c_hydrodiy_stat, c_hydrodiy_gis):
+        for fname in dir(mod):
+            f = getattr(mod, fname)
+            if callable(f) and not fname.startswith("_") and \
+                    type(f).__name__ in ("cython_function_or_method",
+                                         "builtin_function_or_method"):
+                setattr(mod, fname, _wrap(fname, f))
     for idx in args["sessions"]:
         cs = ChoiceStream(seed=seed_for(seed, "C05", idx))
         log = EventLog()
@@ -56,17 +76,28 @@ def run_sessions(args, fd):
                 setattr(a, p, pool.objs[oid].obj)
             np.random.seed(c["npseed"])
             out = None
+            del kcodes[:]
             try:
                 with warnings.catch_warnings(), np.errstate(all="ignore"):
                     warnings.simplefilter("ignore")
                     r = e.fn(a, c["opts"])
                 out = "ok:" + rdigest(r)
                 nok += 1
+                bad = [kc for kc in kcodes if kc[1] > 0]
+                if bad and not e.name.startswith("c_hydrodiy_") and \
+                        "smaller + larger" not in e.name:
+                    # (the excepted entries catch exceptions of their own
+                    # intermediate steps)
+                    emit(fd, "KERR", idx, k, e.name, bad[:3], repr(r)[:120])
+                    os._exit(5)
             except Exception as ex:
                 out = "raise:" + type(ex).__name__
                 nraise += 1
             faulthandler.cancel_dump_traceback_later()
             kinds.append(e.name)
+            for sig in S.KNOWN_HITS:
+                emit(fd, "KNOWNHIT", idx, k, sig)
+            del S.KNOWN_HITS[:]
             log.ev(k, e.name, out)
             bad = pool.guards_ok()
             if bad is None:
